@@ -485,6 +485,18 @@ pub fn run(env: &Env) -> i32 {
     cov.insert("rule".into(), json!("one evaluation = one child run of the real binary; per project: an unfiltered run compared with the in-process model, further hash keys, then points of the (level x allow-subset x verbose x sarif) lattice; a project is non-trivial if it displays at least one finding for a definition of a user file; distinct by hash of (files, argv, plan)"));
     cov.insert("samples".into(), json!([{"argv": b0.case.argv, "plan": b0.case.plan, "files": b0.case.world.files.keys().collect::<Vec<_>>(), "preexisting_sarif": b0.preexisting_sarif}]));
     cov.insert("reports_by_stage_in_model".into(), json!(stages));
+    crate::report::add_probes(
+        &mut cov,
+        &[
+            ("cfg-stage report travelled through the cache", stages.get("cfg").copied().unwrap_or(0)),
+            ("lifting error travelled through the cache", stages.get("lift-error").copied().unwrap_or(0)),
+            ("parse-stage report", stages.get("parse").copied().unwrap_or(0)),
+            ("pass-stage report", stages.get("pass").copied().unwrap_or(0)),
+            ("project with two or more analysis orders", results.iter().filter(|r| r.orders >= 2).count()),
+            ("SARIF create/write fault fired", results.iter().map(|r| r.sarif_faults).sum::<usize>()),
+        ],
+    );
+    cov.insert("fault_kinds_fired".into(), json!({"hash-key": runs, "clock-fine": runs, "sarif-create-or-write-fails": results.iter().map(|r| r.sarif_faults).sum::<usize>()}));
     cov.insert("lattice_points_checked".into(), json!(results.iter().map(|r| r.lattice_points).sum::<usize>()));
     cov.insert("sarif_files_checked".into(), json!(results.iter().map(|r| r.sarif_checked).sum::<usize>()));
     cov.insert("sarif_write_faults_fired".into(), json!(results.iter().map(|r| r.sarif_faults).sum::<usize>()));
